@@ -23,6 +23,7 @@ POPS = ('pool.pop.central', 'pool.pop.ring', 'pool.pop.steal', 'pool.drain.ring'
 KEY_C03_RING = 'strand-after-shrink-racing-ring-fastpath'
 KEY_C03_CENTRAL = 'strand-central-after-resize0-racing-schedule'
 KEY_C08 = 'ring-drain-skips-decrement'
+KEY_C01_LATE = 'dtor-drain-task-reschedules'
 
 Z = dv.zlit
 B = lambda x: 'true' if x else 'false'
@@ -139,11 +140,30 @@ def gen_case(r):
     np_ = r.choice([1, 2, 2, 3])
     resizer = r.randrange(np_) if r.random() < 0.75 else -1
     progs = [gen_prog(r, n0, i == resizer, i == 0) for i in range(np_)]
-    return {'n0': n0, 'budget': 2500, 'progs': progs, 'sched': bursts(r, 90)}
+    return {'n0': n0, 'budget': 2500, 'finalq': 0 if r.random() < 0.3 else 1, 'progs': progs, 'sched': bursts(r, 90)}
+
+
+def gen_placed_dtor(r):
+    """boundary case: placed submissions (steal rings) to a pool whose workers are already asleep, destructor right afterwards (no
+    quiescence wait), so that ~ThreadPool's own steal-ring / ring / central drains have work to do"""
+    n0 = r.choice([1, 2, 3, 4])
+    ops = [r.choice(['p0', 'p0', 'p1', 'f0', 'P2', 't%d' % n0]) for _ in range(r.randint(1, 4))]
+    return {'n0': n0, 'budget': 2500, 'finalq': 0, 'progs': [ops], 'sched': [1] * (3 * n0 + r.choice([0, 1, 2])) + [0] * 60 + bursts(r, 30)}
+
+
+def gen_overflow(r):
+    """boundary case: more ring-path submissions to the same ring than its capacity while the workers are kept from popping
+    (producer first), so that try_push fails and the central-queue fallback is exercised; optionally a resize or an early destructor"""
+    n0 = r.choice([1, 2, 3, 4])
+    k = r.choice([1, n0])
+    ops = ['t%d' % k] * r.choice([17, 18, 20])
+    if r.random() < 0.4:
+        ops.insert(r.randrange(10, len(ops)), 'r%d' % r.choice([1, 2, 3]))
+    return {'n0': n0, 'budget': 4000, 'finalq': r.choice([0, 1, 1]), 'progs': [ops], 'sched': [0] * r.choice([40, 80, 160]) + bursts(r, 40)}
 
 
 def line_of(c):
-    return '%d %d ; %s ; S %s' % (c['n0'], c['budget'], ' ; '.join(' '.join(p) if p else ' ' for p in c['progs']), ' '.join(map(str, c['sched'])))
+    return '%d %d %d ; %s ; S %s' % (c['n0'], c['budget'], c.get('finalq', 1), ' ; '.join(' '.join(p) if p else ' ' for p in c['progs']), ' '.join(map(str, c['sched'])))
 
 
 # deterministic witnesses of the known findings (forced by explicit decision lists; replayed first on every run)
@@ -154,6 +174,9 @@ WITNESSES = [
     {'name': 'C03-strand-ring', 'n0': 4, 'budget': 900, 'progs': [['t4'], ['r2']], 'sched': [0, 0] + [1] * 45 + [0] * 150},
     # C03 second candidate: producer 0 has read numThreads_ != 0 in forceEnqueue, producer 1 runs resize(0), producer 0 then enqueues centrally
     {'name': 'C03-strand-central', 'n0': 2, 'budget': 900, 'progs': [['f0', 'q'], ['r0']], 'sched': [0, 0] + [1] * 45 + [0] * 150},
+    # C01: a task sitting in a steal ring when ~ThreadPool starts is run by the destructor's steal-ring drain; its body calls pool.schedule():
+    # the child is enqueued centrally after the destructor's last central drain and is never run
+    {'name': 'C01-dtor-drain-reschedules', 'n0': 1, 'budget': 900, 'finalq': 0, 'progs': [['p1']], 'sched': [1] * 5 + [0] * 120},
 ]
 
 
@@ -162,8 +185,8 @@ def run_pool(ctx, prop):
     exe = dv.build_harness('h_pool', ['h_pool.cpp'])
     ctx.phase('build')
     r = ctx.rng
-    n = 450 if ctx.quick else 6000
-    cases = list(WITNESSES) + [gen_case(r) for _ in range(n)]
+    n = 300 if ctx.quick else 6000
+    cases = list(WITNESSES) + [gen_overflow(r) if i % 25 == 3 else gen_placed_dtor(r) if i % 25 in (7, 17) else gen_case(r) for i in range(n)]
     outs = ls_common.run_cases(exe, [line_of(c) for c in cases], jobs=10)
     ctx.phase('run')
     kept, terms = [], []
